@@ -27,7 +27,19 @@ GZIP_MAGIC = b'\x1f\x8b'
 # --------------------------------------------------------------------------
 
 def file_bytes(f):
-    return bytes.fromhex(f['content'])
+    data = bytes.fromhex(f['content'])
+    ids = f.get('_ids')
+    if ids:
+        for k, i in enumerate(ids):
+            data = data.replace(b'@@ID%d@@' % k, i.encode())
+    return data
+
+
+def with_ids(scn, ids):
+    """ the scenario with every @@ID<k>@@ placeholder bound to the id of definition k """
+    s2 = dict(scn)
+    s2['files'] = [dict(f, _ids=ids) for f in scn['files']]
+    return s2
 
 
 def file_disk_bytes(f):
@@ -115,8 +127,6 @@ class Built:
         self.scn = scn
         self.tmpdir = tmpdir
         self.paths = []
-        for f in scn['files']:
-            self.write_file(f)
         self.constraints = []
         for c in scn.get('constraints', []):
             kw = {}
@@ -160,6 +170,9 @@ class Built:
                     body=mk_sd(d['body']) if d.get('body') else None,
                     end=mk_sd(d['end']) if d.get('end') else None, **kw))
         self.def_index = {d.id: i for i, d in enumerate(self.defs)}
+        self.def_ids = [d.id for d in self.defs]
+        for f in with_ids(scn, self.def_ids)['files']:
+            self.write_file(f)
 
     def write_file(self, f):
         path = os.path.join(self.tmpdir, f['name'])
@@ -270,6 +283,7 @@ def run_searcher(built, fs, K):
                 ([[r.tag, r.linenumber, [canon_val(v) for v in r]] for r in sec]
                  for sec in found.values()), key=repr)
     return {'paths': observe_collection(built, results, K),
+            'def_ids': built.def_ids,
             'sections': sections,
             'stats': {'lines': st['lines_searched'], 'results': st['results'],
                       'searches': st['searches'],
